@@ -29,8 +29,16 @@ impl Ctx {
     }
 }
 
+/// a logger that formats every record and throws it away: with it installed (and the level raised), the library's `debug!` / `info!` /
+/// `warn!` arguments are evaluated — the result of a call must not depend on whether anybody listens
+struct Sink;
+impl log::Log for Sink { fn enabled(&self, _: &log::Metadata) -> bool { true } fn log(&self, r: &log::Record) { let _ = format!("{}", r.args()); } fn flush(&self) {} }
+static SINK: Sink = Sink;
+pub fn logging(on: bool) { log::set_max_level(if on { log::LevelFilter::Trace } else { log::LevelFilter::Off }); }
+
 fn main() {
     if std::env::var("PV_PANIC").is_err() { std::panic::set_hook(Box::new(|_| {})); }
+    let _ = log::set_logger(&SINK); logging(false);
     let args: Vec<String> = std::env::args().collect();
     if args.len() < 7 || args[1] != "gen" { eprintln!("usage: pv gen <suite> <seed> <n> <quick|thorough> <out.jsonl> [progress-file]"); std::process::exit(2); }
     let suite = args[2].clone(); let seed: u64 = args[3].parse().unwrap(); let n: usize = args[4].parse().unwrap();
